@@ -141,6 +141,9 @@ pub fn event(
             s.push_str(&format!("{:?}", msg));
             s.push_str(",\"loc\":");
             s.push_str(&format!("{:?}", loc));
+            // an explicit not-implemented stub (todo!() / unimplemented!(), with or without a note)?
+            let stub = msg.starts_with("not yet implemented") || msg.starts_with("not implemented");
+            s.push_str(if stub { ",\"stub\":true" } else { ",\"stub\":false" });
         }
     }
     s.push('}');
